@@ -1,4 +1,5 @@
 import Hub.Lemmas.ProtoJson
+import Hub.Lemmas.ProtoJsonLeaves
 import Hub.Generated.Proto
 import Hub.Generated.Status
 /-
@@ -23,14 +24,19 @@ Part 2  the hub: every regenerated descriptor is supported (`hub_descriptors_jwf
         tables (`status_never`, finding F7) — so `hub_json_roundtrip_iff`: a hub message round-trips ⇔ no enum-typed
         field occurs in it (and its strings are UTF-8); `json_roundtrip_without_enums`, `status_field_breaks_json`;
         `hub_enum_free_count`: 185 of the 264 message types are free of enum fields.
-Part 3  non-vacuity: the leaf assumptions are satisfiable (`refLeaves_ok`); a deposit round-trips, a node does not.
+Part 3  the executable instance: all four leaf renderings of `goLeaves` (base64, RFC 3339, durations, `LegacyDec`
+        text — what the probe compares with the real codec) are PROVED to be read back (`goLeaves_ok`,
+        `Hub/Lemmas/ProtoJsonLeaves.lean`; the calendar part by two complete 400-year tables evaluated by the
+        kernel), so the theorems hold of `hubJson` without any hypothesis on the leaves:
+        `hub_json_roundtrip_iff_go`, `json_roundtrip_without_enums_go`, `status_field_breaks_json_go`.
+Part 4  non-vacuity: a deposit round-trips, a node does not (zero status or active).
 
-TRUSTED (see the header of `Hub/SDK/ProtoJson.lean`): JSON text ⇄ tree (`encoding/json`); the four leaf renderings
-base64 / RFC 3339 / duration / `LegacyDec` text enter through `LeavesOK` (hypothesis `hL` of every theorem): the
-executable instance `goLeaves` is compared with the real codec on every probe line but `LeavesOK goLeaves` is not
-proved.  Correspondence: `/verif/harness/probe19` — the model predicts, for every generated value of every registered
-type, whether the real `MarshalJSON`-then-`UnmarshalJSON` gives the value back, and its tree is compared with the real
-JSON (`check.py`, `run_probe19`).
+TRUSTED (see the header of `Hub/SDK/ProtoJson.lean`): JSON text ⇄ tree (`encoding/json`), and that the model is
+what the Go code does — `toJson`/`fromJson` mirror jsonpb by reading, and `/verif/harness/probe19` compares them on
+every run: the model predicts, for every generated value of every registered type, whether the real
+`MarshalJSON`-then-`UnmarshalJSON` gives the value back, and its tree (leaves included) is compared with the real JSON
+(`check.py`, `run_probe19`).  The general theorems of Part 1–2 take the leaves as a parameter with the hypothesis
+`LeavesOK`; Part 3 discharges it for `goLeaves`.
 -/
 namespace Hub.Props.C19Json
 open Hub.SDK Hub.SDK.ProtoWire Hub.SDK.ProtoJson Hub.Generated
@@ -154,32 +160,27 @@ theorem hub_enum_free_count :
     (Proto.messages.filter (fun d => noEnums hubJson Proto.env d)).length = 185 ∧ Proto.messages.length = 264 := by
   decide +kernel
 
-/-! ## Part 3 — non-vacuity -/
+/-! ## Part 3 — the executable instance `hubJson` (leaves proved: no hypothesis left) -/
 
-/-- A toy instance of the leaves (bytes as Latin-1, pairs in unary, decimals as integers) for which the assumptions
-are provable: `LeavesOK` is satisfiable, the theorems above are not vacuous.  (It is not what Go prints: that is
-`goLeaves`, validated by the probe.) -/
-def refLeaves : Leaves where
-  b64 := latin1
-  unb64 s := some (unlatin1 s)
-  timeText s n := String.ofList (List.replicate s 'a' ++ List.replicate n 'b')
-  parseTime t := some (t.toList.count 'a', t.toList.count 'b')
-  durText s n := String.ofList (List.replicate s 'a' ++ List.replicate n 'b')
-  parseDur t := some (t.toList.count 'a', t.toList.count 'b')
-  decText i := latin1 (intText i)
-  parseDec t := parseIntTextCanon (unlatin1 t)
+/-- The executable model's own JSON round trip, for every hub message: succeeds ⇔ no enum-typed (`Status`) field
+occurs in the value and its strings are UTF-8.  This is what `hubmodel --probe` evaluates on every probe line
+(`json=1|0`) and what the real codec is compared with. -/
+theorem hub_json_roundtrip_iff_go (d : MsgDesc) (hd : d ∈ Proto.messages) (v : Val) (hc : JCanonical hubJson Proto.env d v) :
+    fromJson hubJson Proto.env d (toJson hubJson Proto.env d v) = some v ↔
+      hasEnumField hubJson Proto.env d v = false ∧ StringsUtf8 hubJson Proto.env d v :=
+  hub_json_roundtrip_iff goLeaves goLeaves_ok d hd v hc
 
-theorem count_ab (s n : Nat) :
-    (String.ofList (List.replicate s 'a' ++ List.replicate n 'b')).toList.count 'a' = s ∧
-    (String.ofList (List.replicate s 'a' ++ List.replicate n 'b')).toList.count 'b' = n := by
-  rw [String.toList_ofList]
-  simp [List.count_append, List.count_replicate]
+theorem json_roundtrip_without_enums_go (d : MsgDesc) (hd : d ∈ Proto.messages) (hne : noEnums hubJson Proto.env d = true)
+    (v : Val) (hc : JCanonical hubJson Proto.env d v) (hu : StringsUtf8 hubJson Proto.env d v) :
+    fromJson hubJson Proto.env d (toJson hubJson Proto.env d v) = some v :=
+  json_roundtrip_without_enums goLeaves goLeaves_ok d hd hne v hc hu
 
-theorem refLeaves_ok : LeavesOK refLeaves where
-  b64 b := by simp only [refLeaves, unlatin1_latin1]
-  time s n _ := by simp only [refLeaves, (count_ab s n).1, (count_ab s n).2]
-  dur s n _ := by simp only [refLeaves, (count_ab s n).1, (count_ab s n).2]
-  dec i _ := by simp only [refLeaves, unlatin1_latin1, parseIntTextCanon_intText]
+theorem status_field_breaks_json_go (d : MsgDesc) (hd : d ∈ Proto.messages) (v : Val) (hc : JCanonical hubJson Proto.env d v)
+    (hs : hasEnumField hubJson Proto.env d v = true) :
+    fromJson hubJson Proto.env d (toJson hubJson Proto.env d v) ≠ some v :=
+  status_field_breaks_json goLeaves goLeaves_ok d hd v hc hs
+
+/-! ## Part 4 — non-vacuity -/
 
 def depositDesc : MsgDesc := (lookup Proto.env "sentinel.deposit.v1.Deposit").getD ⟨"", []⟩
 def nodeDesc : MsgDesc := (lookup Proto.env "sentinel.node.v2.Node").getD ⟨"", []⟩
@@ -190,24 +191,24 @@ def aDeposit : Val :=
         .list [.msg [.bytes [117, 100, 118, 112, 110], .int 1000], .msg [.bytes [195, 169], .int 5]]]
 
 /-- A record without enum fields round-trips … -/
-example : fromJson (hubJ refLeaves) Proto.env depositDesc (toJson (hubJ refLeaves) Proto.env depositDesc aDeposit) = some aDeposit :=
-  json_roundtrip_without_enums refLeaves refLeaves_ok depositDesc (by decide +kernel) (by decide +kernel) aDeposit
+example : fromJson hubJson Proto.env depositDesc (toJson hubJson Proto.env depositDesc aDeposit) = some aDeposit :=
+  json_roundtrip_without_enums_go depositDesc (by decide +kernel) (by decide +kernel) aDeposit
     (by unfold JCanonical; decide +kernel) (by unfold StringsUtf8; decide +kernel)
 
-/-- … the all-zero `Node` (status `STATUS_UNSPECIFIED` = 0, printed `"unspecified"`) does not, nor does an active one. -/
-example : fromJson (hubJ refLeaves) Proto.env nodeDesc (toJson (hubJ refLeaves) Proto.env nodeDesc (defaultMsg Proto.env depthFuel nodeDesc))
+/-- … the all-zero `Node` (status `STATUS_UNSPECIFIED` = 0, printed `"unspecified"`) does not … -/
+example : fromJson hubJson Proto.env nodeDesc (toJson hubJson Proto.env nodeDesc (defaultMsg Proto.env depthFuel nodeDesc))
     ≠ some (defaultMsg Proto.env depthFuel nodeDesc) :=
-  status_field_breaks_json refLeaves refLeaves_ok nodeDesc (by decide +kernel) _
-    (by unfold JCanonical; decide +kernel) (by decide +kernel)
+  status_field_breaks_json_go nodeDesc (by decide +kernel) _ (by unfold JCanonical; decide +kernel) (by decide +kernel)
 
-/-- `Node{address: "sent1", status: STATUS_ACTIVE (1), …}` -/
+/-- `Node{address: "sent1", inactive_at: zero time, status: STATUS_ACTIVE (1), status_at: 2023-11-14T22:13:20.000000005Z}` -/
 def anActiveNode : Val :=
   .msg [.bytes [115, 101, 110, 116, 49], .list [], .list [], .bytes [], .msg [.varint zeroTimeSeconds, .varint 0],
         .varint 1, .msg [.varint 1700000000, .varint 5]]
 
-example : JCanonical (hubJ refLeaves) Proto.env nodeDesc anActiveNode ∧
-    fromJson (hubJ refLeaves) Proto.env nodeDesc (toJson (hubJ refLeaves) Proto.env nodeDesc anActiveNode) ≠ some anActiveNode := by
-  have hc : JCanonical (hubJ refLeaves) Proto.env nodeDesc anActiveNode := by unfold JCanonical; decide +kernel
-  exact ⟨hc, status_field_breaks_json refLeaves refLeaves_ok nodeDesc (by decide +kernel) _ hc (by decide +kernel)⟩
+/-- … nor does an active one (a well-typed value: the hypotheses of the theorem are satisfiable on it). -/
+example : JCanonical hubJson Proto.env nodeDesc anActiveNode ∧ StringsUtf8 hubJson Proto.env nodeDesc anActiveNode ∧
+    fromJson hubJson Proto.env nodeDesc (toJson hubJson Proto.env nodeDesc anActiveNode) ≠ some anActiveNode := by
+  have hc : JCanonical hubJson Proto.env nodeDesc anActiveNode := by unfold JCanonical; decide +kernel
+  exact ⟨hc, by unfold StringsUtf8; decide +kernel, status_field_breaks_json_go nodeDesc (by decide +kernel) _ hc (by decide +kernel)⟩
 
 end Hub.Props.C19Json
